@@ -41,6 +41,9 @@ def gen_cases(tier: str, seed: int) -> List[Dict[str, Any]]:
         grid = GRID17
     for L in depths:
         cases.append({"kind": "rule", "L": L, "grid": [[g.numerator, g.denominator] for g in grid]})
+    # one rule object queried for several depths in sequence (a rule is a reusable callable: depth sweeps share it)
+    for i in range(12 if tier == "quick" else 200):
+        cases.append({"kind": "reuse", "seed": derive_seed(seed, PROPERTY, "reuse", i)})
     stack_layers = list(range(1, 13)) if tier == "quick" else list(range(1, 65))
     for n in stack_layers:
         cases.append({"kind": "stack", "layers": n, "cls": "TransformerStack"})
@@ -58,7 +61,34 @@ def _frac_sqrt_close(x2: Fraction, target: Fraction, rel: Fraction) -> bool:
 def run_case(case: Dict[str, Any], ctx) -> None:
     if case["kind"] == "rule":
         return run_rule(case, ctx)
+    if case["kind"] == "reuse":
+        return run_reuse(case, ctx)
     return run_stack(case, ctx)
+
+
+def run_reuse(case, ctx) -> None:
+    """History over one rule object: taus for a depth must not depend on which depths were asked before."""
+    from unit_scaling.core.functional import transformer_residual_scaling_rule
+    from ..common import rng_for
+
+    rng = rng_for(case["seed"])
+    mult, ratio = float(rng.choice(GRID7)), float(rng.choice(GRID7))
+    shared = transformer_residual_scaling_rule(residual_mult=mult, residual_attn_ratio=ratio)
+    depths = [rng.randint(1, 40) for _ in range(rng.randint(2, 5))]
+    ctx.count("evaluations")
+    for L in depths:
+        fresh = transformer_residual_scaling_rule(residual_mult=mult, residual_attn_ratio=ratio)
+        order = list(range(2 * L))
+        if rng.random() < 0.5:
+            rng.shuffle(order)
+        for i in order:
+            a, b = shared(i, 2 * L), fresh(i, 2 * L)
+            ctx.count("rule:taus-recorded")
+            if a != b:
+                ctx.violation("C07:rule:tau-depends-on-earlier-queries-of-the-same-rule-object",
+                              f"depths asked so far {depths}, now L={L}, index {i}: shared rule gives {a!r}, a fresh rule {b!r}", mult=mult, ratio=ratio)
+                return
+    ctx.nontrivial(f"reuse|{mult}|{ratio}|{depths}")
 
 
 def run_rule(case, ctx) -> None:
